@@ -284,9 +284,9 @@ def c04(chk):
     # conformance: the complete workloads TLC emits are executed in child processes that are killed before every mutation
     os.environ["VERIF_CRASH_ARGS"] = "-points=all -double=%d" % (1 if quick else 6)
     spec_stage(chk, "crash_3ops", "FsDbCrash.tla", dict(Keys=K2, MaxOps=3, MaxCrash=2, SwapRecordOrder=False, SplitCommit=False),
-               exe="crash", sample=64 if quick else None, chunk=2, keep=lambda w: any(o["op"] == "set" for o in w), **common)
+               exe="crash", sample=24 if quick else None, chunk=2, keep=lambda w: any(o["op"] == "set" for o in w), **common)
     spec_stage(chk, "crash_4ops", "FsDbCrash.tla", dict(Keys=K2, MaxOps=4, MaxCrash=1 if quick else 2, SwapRecordOrder=False, SplitCommit=False),
-               exe="crash", sample=96 if quick else 1200, chunk=3,
+               exe="crash", sample=40 if quick else 1200, chunk=2,
                keep=lambda w: sum(1 for o in w if o["op"] in ("set", "del")) >= 2 and any(o["op"] in ("commit", "gc", "rollback") for o in w), **common)
     if not quick:
         os.environ["VERIF_CRASH_ARGS"] = "-points=every:2 -double=3"
@@ -761,12 +761,15 @@ WP_SCENARIOS = [
     dict(name="send_before_run", workers=1, jobs=1, stoppers=0, runners=1, startRunning=False),
     dict(name="two_runs", workers=2, jobs=2, stoppers=0, runners=2, startRunning=False),
     dict(name="stop_before_run", workers=1, jobs=0, stoppers=1, runners=1, startRunning=False),
+    dict(name="parent_cancel_then_stop", workers=1, jobs=2, stoppers=1, runners=0, cancellers=1, startRunning=True),
+    dict(name="parent_cancel_stop_run", workers=1, jobs=1, stoppers=1, runners=1, cancellers=1, startRunning=True),
 ]
 
 
 def wp_consts(sc, variant, ordered=False, jobs=None):
     return dict(NWorkers=sc["workers"], Jobs=set(range(1, (jobs or sc["jobs"]) + 1)), Stoppers=set(range(1, sc["stoppers"] + 1)),
-                Runners=set(range(1, sc["runners"] + 1)), Variant=variant, StartRunning=sc["startRunning"], Ordered=ordered,
+                Runners=set(range(1, sc["runners"] + 1)), Cancellers=set(range(1, sc.get("cancellers", 0) + 1)),
+                Variant=variant, StartRunning=sc["startRunning"], Ordered=ordered,
                 SpuriousTimeout=True)
 
 
@@ -785,7 +788,8 @@ def c16(chk):
     try:
         inv = ("AtMostOnce", "NoPanic", "NoStartAfterStop", "StopWaitsForJobs", "NoStrandedJob")
         designs = [("deferred_3jobs", WP_SCENARIOS[0], 3), ("two_stops", WP_SCENARIOS[5], None), ("stop_vs_sends", WP_SCENARIOS[3], 2 if quick else 3),
-                   ("send_before_run", WP_SCENARIOS[7], None), ("stop_run_send", WP_SCENARIOS[6], None), ("two_runs", WP_SCENARIOS[8], None)]
+                   ("send_before_run", WP_SCENARIOS[7], None), ("stop_run_send", WP_SCENARIOS[6], None), ("two_runs", WP_SCENARIOS[8], None),
+                   ("parent_cancel_then_stop", WP_SCENARIOS[10], None)]
         if not quick:
             designs.append(("deferred_2workers", WP_SCENARIOS[2], 3))
         for name, sc, jobs in designs:
